@@ -1692,7 +1692,7 @@ func genClose(r *rand.Rand, id string, size int, total int) []string {
 	g.add("obs %d", p)
 	g.add("final18 %d", p)
 	if second && g.pick(2) == 0 {
-		g.add("dropstore %d", p)
+		g.add("dropstore %d%s", p, []string{"", " closed"}[g.pick(2)])
 		g.add("usedb 1")
 		g.add("obsdb %d 1", p)
 		g.add("usedb 0")
